@@ -61,6 +61,14 @@ def norm_path(p):
               .replace("std::collections::btree_map::", "std::collections::hash_map::")
               .replace("std::collections::BTreeSet", "std::collections::HashSet")
               .replace("std::collections::btree_set::", "std::collections::hash_set::"))
+    if "VecDeque" in r or "vec_deque::" in r:
+        # a work list is a work list whether it is popped at the back or at the front
+        r = (r.replace("std::collections::VecDeque::pop_front", "std::vec::Vec::pop")
+              .replace("std::collections::VecDeque::pop_back", "std::vec::Vec::pop")
+              .replace("std::collections::VecDeque::push_back", "std::vec::Vec::push")
+              .replace("std::collections::VecDeque::push_front", "std::vec::Vec::push")
+              .replace("std::collections::VecDeque", "std::vec::Vec")
+              .replace("std::collections::vec_deque::", "std::vec::"))
     return r
 
 
